@@ -307,10 +307,14 @@ def cols():
     return spec.get_int_constant(constant_id="dup")
 
 @tweezer
+def shifted(g, dy: float, dx: float):
+    return grid.shift(g, dx, dy)
+
+@tweezer
 def hop(dx: float):
-    # only ever called from inside a loop body / a branch arm
+    # only ever called from inside a loop body / a branch arm; calls its own helper with keywords in another order than the signature
     z = spec.get_static_trap(zone_id="traps")
-    action.move(grid.shift(z[0:2, 0:1], dx, spec.get_float_constant(constant_id="dup")))
+    action.move(shifted(dx=dx, g=z[0:2, 0:1], dy=spec.get_float_constant(constant_id="dup")))
 
 @tweezer
 def back():
@@ -326,7 +330,8 @@ def main(c: bool, dx: float):
         if c:
             back()
     if c:
-        hop(dx)
+        hop(dx=dx)
+        action.move(shifted(dy=0.25, dx=2.0 * dx, g=spec.get_static_trap(zone_id="traps")[0:2, 0:1]))
     else:
         action.turn_off(action.ALL, [spec.get_int_constant(constant_id="zero")])
     action.turn_off(action.ALL, action.ALL)
